@@ -242,13 +242,23 @@ func ruleRepeat(c *Ctx) {
 		c.undecided("C06-REPEAT", "server", "settings normaliser", token.NoPos, "normaliser not found")
 		return
 	}
-	txt := fullStr(c.P.Fset, norm.Body)
-	for _, leaf := range []string{"Formatting.IndentSize", "Formatting.MinAlignmentColumn"} {
-		upper := strings.Contains(txt, leaf+" > ")
-		lower := strings.Contains(txt, leaf+" <= 0") || strings.Contains(txt, leaf+" < 0")
-		c.check(upper && lower, "C06-REPEAT", c.P.declName(norm), "configuration integer "+leaf+" is clamped on both sides", norm.Pos(),
-			"lower and upper bound enforced by the normaliser", "the configuration value "+leaf+" reaches strings.Repeat counts but the normaliser does not bound it on both sides: a huge value makes one request allocate gigabytes")
+	// value-range analysis of the normaliser: whatever the configuration, the integers that become Repeat counts
+	// leave it inside a finite, non-negative range
+	ranges, rt := resultRanges(c.P.ssaOf(norm))
+	found := map[string]bool{}
+	for _, p := range sortedLeafPaths(ranges) {
+		leaf := leafName(rt, p)
+		if leaf != "Formatting.IndentSize" && leaf != "Formatting.MinAlignmentColumn" {
+			continue
+		}
+		found[leaf] = true
+		r := ranges[p]
+		okR := !r.loInf && !r.hiInf && r.lo >= 0
+		c.check(okR, "C06-REPEAT", c.P.declName(norm), "configuration integer "+leaf+" is clamped on both sides", norm.Pos(),
+			"the normalised value lies in "+r.String()+" for every input (value-range analysis of the normaliser)",
+			"the configuration value "+leaf+" reaches strings.Repeat counts but the normaliser does not bound it on both sides (range of the normalised value: "+r.String()+"): a negative count panics, a huge value makes one request allocate gigabytes")
 	}
+	c.census("C06-REPEAT", "configuration integers that become Repeat counts", len(found), 2)
 }
 
 func repeatCountSafe(c *Ctx, ci *concInfo, v ssa.Value, f *ssa.Function, depth int) (bool, string) {
